@@ -393,6 +393,11 @@ def run(ck, fb, tier):
             rule_r3(ck, prog, S)
             rule_r4(ck, prog)
         rule_r5(ck, prog)
+        if cfg == "A" or tier == "thorough":
+            # the reader's string class: every 7-bit character other than the delimiter (shared with C13-T4)
+            from . import c13
+            from .lexmodel import LexModel
+            c13.rule_t4(K.RuleProxy(ck, {"C13-T4": "C07-R3"}), prog, S, LexModel(prog, S), only=("isascii7bit", "skipQuoteProgramData"))
         from . import c16
         px = K.RuleProxy(ck, {"C16-G1": "C07-R6", "C16-G4": "C07-R6"})
         c16.rule_g1(px, prog, cfg)
